@@ -419,3 +419,22 @@ def shrink(ctx, case):
     if case["input"].startswith("dtls "):
         return shrink_dtls(ctx, case)
     return L.shrink_msg(ctx, me, case, judge)
+
+
+# ---- T1X: the numerals of this property's models are tied to the current tree.  extract/consts2*.c + a source scan
+# rewrite lean/CoapVerif/Generated/Consts2.lean on every check; Props/C08Consts.lean proves `<model numeral> =
+# Generated.C2.<name>` (design/T1.md).  A changed macro / struct size / literal breaks one of these named obligations.
+LEAN_MODULES = list(LEAN_MODULES) + ["CoapVerif.Props.C08Consts"]
+REQUIRED_THEOREMS = list(REQUIRED_THEOREMS) + [
+    "sess_defaults_matches_code",
+    "sess_calcTimeout_matches_code",
+    "mid_modulus_matches_code",
+    "clampDelay_matches_code",
+]
+TRUSTED_BASE = list(TRUSTED_BASE) + ["T1 extractors extract/consts2.c, consts2_net.c, consts2_opt.c and the source scan vlib/tables.py scan_consts2 (Generated/Consts2.lean)"]
+_t1x_prev_extract = globals().get("extract")
+
+
+def extract(ctx):
+    from vlib import tables
+    return (_t1x_prev_extract(ctx) if _t1x_prev_extract else []) + tables.extract_consts2()
